@@ -17,7 +17,7 @@ theorem Inv.ghost_rem {g : Ghost} {s : KState ℚ σ} (hi : Inv g s) (rest : Lis
     (hkeep : ∀ p, Cb.resume p ∈ g.rem → Cb.resume p ∈ rest) :
     Inv { g with rem := rest } s := by
   refine ⟨hi.c.ghost hsub hcount rfl (fun p hp => hi.c.pend p (Or.inr hp)), hi.q,
-    hi.l.ghost (fun _ h => h) (fun h => h) ?_⟩
+    hi.l.ghost (fun _ h => h) (fun h => h) ?_, hi.s⟩
   intro p t h _
   rcases h with ⟨h1, h2⟩ | h | h
   · exact Or.inl ⟨h1, hkeep p h2⟩
@@ -29,7 +29,7 @@ theorem Inv.ghost_run {g : Ghost} {s : KState ℚ σ} (hi : Inv g s) (p : EvId)
     (h : (s.ev p).out = none ∧ (s.ev p).kind = .proc ∧ Unreg s p) (hg : g.run = none) :
     Inv { g with run := some p } s :=
   ⟨hi.c.ghost (fun _ h => h) hi.c.rem_count rfl (fun p' hp' => by cases hp'; exact h), hi.q,
-    hi.l.ghost (fun p' hp' => by rw [hg] at hp'; cases hp') (fun h => h) (fun _ _ h _ => h)⟩
+    hi.l.ghost (fun p' hp' => by rw [hg] at hp'; cases hp') (fun h => h) (fun _ _ h _ => h), hi.s⟩
 
 /-- the callback `_resume p` is taken off the pending list and `p` becomes the running process -/
 theorem Inv.ghost_pop_run {g : Ghost} {s : KState ℚ σ} (hi : Inv g s) (p : EvId) (rest : List Cb)
@@ -40,7 +40,7 @@ theorem Inv.ghost_pop_run {g : Ghost} {s : KState ℚ σ} (hi : Inv g s) (p : Ev
     have := hi.c.rem_count q
     rw [hrem, List.count_cons] at this
     omega
-  refine ⟨hi.c.ghost hsub hcnt rfl ?_, hi.q, hi.l.ghost (fun p' hp' => by rw [hg] at hp'; cases hp') (fun h => h) ?_⟩
+  refine ⟨hi.c.ghost hsub hcnt rfl ?_, hi.q, hi.l.ghost (fun p' hp' => by rw [hg] at hp'; cases hp') (fun h => h) ?_, hi.s⟩
   · intro p' hp'
     cases hp'
     exact hi.c.pend p (Or.inl (by rw [hrem]; exact List.mem_cons_self))
@@ -60,7 +60,7 @@ theorem Inv.ghost_unrun {g : Ghost} {s : KState ℚ σ} (hi : Inv g s) (p : EvId
     (h : g.lv = true → ∀ pr, s.proc? p = some pr → (s.ev p).out = none → ∃ t, pr.target = some t ∧ t < s.events.size ∧
       Held { g with run := none } s p t) :
     Inv { g with run := none } s := by
-  refine ⟨hi.c.ghost (fun _ h => h) hi.c.rem_count rfl (fun p' hp' => by cases hp'), hi.q, ⟨?_⟩⟩
+  refine ⟨hi.c.ghost (fun _ h => h) hi.c.rem_count rfl (fun p' hp' => by cases hp'), hi.q, ⟨?_⟩, hi.s⟩
   intro hlv p' pr hpp hout _
   by_cases hp : p' = p
   · subst hp; exact h hlv pr hpp hout
@@ -106,7 +106,11 @@ theorem Inv.register {g : Ghost} {s s3 : KState ℚ σ} (p e' : EvId) (hg : g.ru
       rcases List.mem_append.mp hm with h | h
       · exact h
       · exact absurd (List.mem_singleton.mp h) hne
-    refine ⟨⟨hi.c.ag_distinct, ?_, ?_, ?_, ?_, ?_, ?_, ?_, ?_, ?_, hi.c.rem_intr, hi.c.rem_count⟩, ?_, ⟨?_⟩⟩
+    refine ⟨⟨hi.c.ag_distinct, ?_, ?_, ?_, ?_, ?_, ?_, ?_, ?_, ?_, hi.c.rem_intr, hi.c.rem_count⟩, ?_, ⟨?_⟩,
+      hi.s.same rfl ho (fun x => by
+        rw [hcb]; split
+        · rename_i hx; subst hx; rw [hL]; simp
+        · exact Iff.rfl)⟩
     · intro q hq
       have := hi.c.ag_live q hq
       rw [ho, hcb]
@@ -226,7 +230,8 @@ theorem Inv.finishProc {g : Ghost} {s : KState ℚ σ} (p : EvId) (pr : ProcRec 
     rw [hev, hcb] at hL
     exact absurd hm (hpend.2.2 e L hL)
   unfold _root_.finishProc
-  refine ⟨h4.congr (SameC.of_events rfl rfl rfl), ?_, ⟨?_⟩⟩
+  refine ⟨h4.congr (SameC.of_events rfl rfl rfl), ?_, ⟨?_⟩,
+    (hi.s.trigger p o).same rfl (fun _ => rfl) (fun _ => Iff.rfl)⟩
   · refine hi.q.keep (fun _ => rfl) (fun _ => rfl) ?_
     intro e ho hkind
     show ((s.setOut p o).ev e).kind = _ ∧ ((s.setOut p o).ev e).out = none
@@ -260,7 +265,8 @@ theorem Inv.setProc_run {g : Ghost} {s : KState ℚ σ} (p : EvId) (pr : ProcRec
     Inv g (s.setProc p pr) := by
   have hpend := hi.c.pend p (Or.inr hg)
   refine ⟨hi.c.setProc p pr hpend.2.1 (fun e L hL hm => absurd hm (hpend.2.2 e L hL)),
-    hi.q.keep (fun _ => rfl) (fun _ => rfl) (fun e h _ => ⟨rfl, h⟩), ⟨?_⟩⟩
+    hi.q.keep (fun _ => rfl) (fun _ => rfl) (fun e h _ => ⟨rfl, h⟩), ⟨?_⟩,
+    hi.s.same rfl (fun _ => rfl) (fun _ => Iff.rfl)⟩
   intro hlv p' pr' hpp hout hrun
   rw [proc?_setProc] at hpp
   split at hpp
@@ -390,7 +396,11 @@ theorem Inv.detach {g : Ghost} {s : KState ℚ σ} (hi : Inv g s) (p t : EvId) (
           · subst hq; exact absurd hm (hgone L hc)
           · exact List.count_erase_of_ne (fun h => hq (by cases h; rfl))
       · exact ⟨L', hL', fun q hm => ⟨hm, rfl⟩, fun iv hm => hm, fun c hm => Or.inl hm⟩
-  refine ⟨hc1.ghost (fun _ h => h) hi.c.rem_count rfl ?_, ?_, ?_⟩
+  refine ⟨hc1.ghost (fun _ h => h) hi.c.rem_count rfl ?_, ?_, ?_,
+    hi.s.same rfl ho (fun x => by
+      rw [hcbs]; split
+      · rename_i hx; subst hx; cases (s.ev x).cbs <;> simp
+      · exact Iff.rfl)⟩
   · intro p' hp'
     cases hp'
     exact ⟨by rw [ho]; exact hout, by rw [hk]; exact hi.c.procs p pr hp, hunreg⟩
